@@ -8,6 +8,7 @@ Decided clauses (re-wrapping of sequence lines and gzip are parser behaviour: no
               base <-> complement(base)
   C02.union   accumulation order / multiplicity cannot matter (C15: IUPAC union is commutative and idempotent)
   C02.column  sample index = input position (C03.column, C11.offsets)
+  C02.window  the end-of-record guards are tight (= C01.guard): a window next to the record end is kept on both strands
 """
 from ..facts import AnchorLost
 from ..absint.interp import Interp, Panic, NONE, MapV
@@ -148,3 +149,6 @@ def run(facts, chk, tier, only=None):
             chk.ok('C02.union', 'C02.union:IUPAC', BE + 'IUPAC', 'accumulation is commutative and idempotent, including the first observation (%d identities)' % n, evals=n)
 
     chk.guard('C02.column', 'C02.column:run', lambda: c03.check_column(facts, chk, 'C02.column'))
+    # a window is kept or dropped symmetrically at both record ends only if the end-of-record guards are tight
+    # (a record and its reverse complement must yield the same windows): shared with C01.guard
+    chk.guard('C02.window', 'C02.window:run', lambda: c01.check_guards(facts, chk, 'C02.window'))
